@@ -1,2 +1,1 @@
 import GridVerif.Model.Elem
-import GridVerif.Model.Proto
